@@ -16,6 +16,9 @@ if [ "$MODE" = seeded ]; then
 else
     ls -d "$ROOT"/seeded/preserving/* > "$S/list"
 fi
+# MATRIX_FILTER=<extended regex>: only the changes whose path matches; in seeded mode their rows
+# replace / extend those already in seeded/RESULTS.tsv instead of rewriting the whole file
+if [ -n "$MATRIX_FILTER" ]; then grep -E "$MATRIX_FILTER" "$S/list" > "$S/list.f"; mv "$S/list.f" "$S/list"; fi
 total=$(wc -l < "$S/list")
 worker() {
     k="$1"; D="$S/$k"
@@ -64,7 +67,12 @@ done_n=$(wc -l < "$S/all.tsv")
 echo "matrix: $done_n of $total changes run"
 rc=0
 if [ "$MODE" = seeded ]; then
-    cp "$S/all.tsv" "$ROOT/seeded/RESULTS.tsv"
+    if [ -n "$MATRIX_FILTER" ] && [ -f "$ROOT/seeded/RESULTS.tsv" ]; then
+        awk -F'\t' 'NR==FNR {seen[$1]=1; next} !($1 in seen)' "$S/all.tsv" "$ROOT/seeded/RESULTS.tsv" > "$S/kept.tsv"
+        cat "$S/kept.tsv" "$S/all.tsv" | sort > "$ROOT/seeded/RESULTS.tsv"
+    else
+        cp "$S/all.tsv" "$ROOT/seeded/RESULTS.tsv"
+    fi
     awk -F'\t' '$2 ~ /^ *$/ && $4 == "" {print "NOT CAUGHT: " $1 "  (harness errors:" $3 ")"}' "$S/all.tsv"
 else
     awk -F'\t' '$2 !~ /^ *$/ || $3 !~ /^ *$/ {print "ALARM: " $1 " exit1:" $2 " exit2:" $3}' "$S/all.tsv" > "$S/alarms"
